@@ -682,6 +682,21 @@ func c10Forced() []*c10Scenario {
 	add("stop-while-other-handler-is-slow", []c10Op{opAdd(0, true), opAdd(1, true), opAdd(-1, true), opAdd(-1, true), op("run"), op("wait_running"), opH("slow_probe", 1), opH("slow_probe", 3),
 		opH("stop", 0), opH("wait_stopped", 0), opH("probe", 2), opH("stop", 2), opH("wait_stopped", 2), op("release"), opH("probe", 1), opH("probe", 3),
 		opH("stop", 1), opH("stop", 3), opH("wait_stopped", 1), opH("wait_stopped", 3), op("wait_run"), op("poll_running")})
+	// a new handler under a stopped handler's name (AddHandler retried until the name is accepted), while the
+	// stopped handler's goroutine is still finishing (its publisher's Close takes a while); then RunHandlers
+	add("readd-under-stopped-name", []c10Op{{K: "add", Pub: 0, Hon: true, SlowC: 40}, opAdd(-1, true), op("run"), op("wait_running"), opH("started", 0), opH("probe", 0), opH("stop", 0),
+		opH("readd", 0), opH("wait_stopped", 0), opRH(1, false, false), opH("started", 2), opH("probe", 2), opH("probe", 1), opRH(2, false, false), opH("stop", 1), opH("stop", 2),
+		opH("wait_stopped", 1), opH("wait_stopped", 2), op("wait_run"), op("poll_running")})
+	add("readd-after-stopped", []c10Op{opAdd(-1, true), opAdd(1, true), op("run"), op("wait_running"), opH("stop", 0), opH("wait_stopped", 0), opH("readd", 0), opRH(1, false, false),
+		opH("started", 2), opH("probe", 2), opH("stop", 2), opH("wait_stopped", 2), opH("readd", 2), opRH(1, false, false), opH("started", 3), opH("probe", 3), opH("stop", 1), opH("stop", 3),
+		opH("wait_stopped", 1), opH("wait_stopped", 3), op("wait_run")})
+	// handlers sharing ONE Subscriber object: stopping one (whose subscription ignores the cancel and outlives CloseTimeout)
+	// must not end the others' subscriptions
+	add("shared-subscriber-stop-one", []c10Op{{K: "add", Pub: -1, Hon: false, Sub: 1}, {K: "add", Pub: -1, Hon: true, Sub: 1}, {K: "add", Pub: 0, Hon: true, Sub: 1}, opAdd(-1, true),
+		op("run"), op("wait_running"), opH("probe", 1), opH("stop", 0), {K: "sleep", N: 1300000}, opH("probe", 1), opH("probe", 2), opH("probe", 3), opH("probe", 0),
+		opH("subend", 0), opH("wait_stopped", 0), opH("probe", 2), opH("stop", 1), opH("stop", 2), opH("stop", 3), opH("wait_stopped", 1), opH("wait_stopped", 2), opH("wait_stopped", 3), op("wait_run")})
+	add("shared-subscriber-close", []c10Op{{K: "add", Pub: -1, Hon: true, Sub: 2}, {K: "add", Pub: 0, Hon: false, Sub: 2}, opAdd(-1, false), op("run"), op("wait_running"), opH("probe", 1),
+		opH("stop", 0), opH("wait_stopped", 0), opH("probe", 1), op("close"), op("wait_run"), opH("wait_stopped", 1), opH("wait_stopped", 2)})
 	// second Run after Close / after the context was cancelled
 	add("second-run-after-close", []c10Op{opAdd(-1, true), op("run"), op("wait_running"), op("run2"), op("close"), op("wait_run"), op("run2"), op("poll_running"), op("run2")})
 	add("second-run-after-cancel", []c10Op{opAdd(0, true), op("run"), op("wait_running"), op("cancel"), op("wait_run"), op("run2"), op("run2")})
@@ -716,7 +731,7 @@ var c10Actions = []string{"api.add.ret", "api.rh.call", "api.rh.ret", "api.start
 func c10Random(rng *rand.Rand, id int) *c10Scenario {
 	sc := &c10Scenario{Name: "random"}
 	var ops []c10Op
-	type hinfo struct{ hon, fail, covered, stopped, bg bool }
+	type hinfo struct{ hon, fail, covered, stopped, bg, readded bool }
 	var hs []*hinfo
 	npub := 0
 	addOp := func() {
@@ -736,7 +751,11 @@ func c10Random(rng *rand.Rand, id int) *c10Scenario {
 		}
 		h := &hinfo{hon: rng.Intn(6) != 0, fail: false}
 		hs = append(hs, h)
-		ops = append(ops, c10Op{K: "add", Pub: pub, Hon: h.hon})
+		sub := 0
+		if rng.Intn(3) == 0 {
+			sub = 1 + rng.Intn(2) // one of two shared Subscriber objects
+		}
+		ops = append(ops, c10Op{K: "add", Pub: pub, Hon: h.hon, Sub: sub})
 	}
 	alive := func() (n int) {
 		for _, h := range hs {
@@ -838,8 +857,14 @@ func c10Random(rng *rand.Rand, id int) *c10Scenario {
 				ops = append(ops, opH("slow_probe", h))
 			}
 		case 11:
-			if h := pick(func(h *hinfo) bool { return h.covered && h.stopped }); h >= 0 {
+			if h := pick(func(h *hinfo) bool { return h.covered && h.stopped && h.hon && !h.readded }); h >= 0 {
 				ops = append(ops, opH("wait_stopped", h))
+				if len(hs) < 5 && rng.Intn(2) == 0 {
+					// a new handler under the stopped handler's name
+					hs[h].readded = true
+					hs = append(hs, &hinfo{hon: true, covered: true})
+					ops = append(ops, opH("readd", h), opRH(1+rng.Intn(2), false, false), opH("started", len(hs)-1), opH("probe", len(hs)-1))
+				}
 			}
 		}
 	}
